@@ -60,7 +60,7 @@ func c29Mask(field string, cols []uint64) uint64 {
 func TestVerifC29(t *testing.T) {
 	r := vk.Start(t, "C29")
 	defer r.Finish()
-	for _, o := range []string{"set", "clear", "clearrow", "row", "count", "import", "importclear", "bg:store", "bg:topn", "bg:rows", "bg:sum", "bg:recalc", "bg:flush", "bg:snapshot", "bg:intset"} {
+	for _, o := range []string{"set", "clear", "clearrow", "row", "count", "import", "importclear", "bg:store", "bg:topn", "bg:rows", "bg:sum", "bg:recalc", "bg:flush", "bg:snapshot", "bg:intset", "bg:topn-ids"} {
 		r.Expect("op:" + o)
 	}
 	var hookN uint64
@@ -148,7 +148,7 @@ func TestVerifC29(t *testing.T) {
 					col := cols[rng.Intn(len(cols))]
 					part := fmt.Sprintf("%s/%d", field, row)
 					rec := c29Rec{C: c, P: part}
-					kind := rng.Intn(20)
+					kind := rng.Intn(23)
 					var opname string
 					var run func() (int64, error)
 					b2i := func(v interface{}) int64 {
@@ -229,8 +229,8 @@ func TestVerifC29(t *testing.T) {
 						}
 					default:
 						// background traffic on the same fragments / fields, not part of the lin history
-						bg := rng.Intn(8)
-						names := []string{"store", "topn", "rows", "sum", "recalc", "flush", "snapshot", "intset"}
+						bg := rng.Intn(11)
+						names := []string{"store", "topn", "rows", "sum", "recalc", "flush", "snapshot", "intset", "topn-ids", "topn-ids", "topn-ids"}
 						r.Cover("op:bg:" + names[bg])
 						var err error
 						switch bg {
@@ -252,6 +252,9 @@ func TestVerifC29(t *testing.T) {
 							}
 						case 7:
 							_, err = query(fmt.Sprintf("Set(%d, v=%d)", col, rng.Intn(2001)-1000))
+						default:
+							// explicit ids: counts are read from the fragment's count cache without the fragment lock
+							_, err = query(fmt.Sprintf("TopN(%s, ids=[0,1,2,3])", field))
 						}
 						if err != nil {
 							mu.Lock()
